@@ -1,6 +1,6 @@
 """C06: responses are framed: ';' between units, ',' between items, one terminator."""
 import json
-import lib, parser_common as pc, suite_traces
+import lib, parser_common as pc, suite_traces, composition
 
 def kind(rec, rel, hints):
     h = set(hints)
@@ -26,7 +26,8 @@ def run(pid, tier):
     scen = pc.gen(rep, 'C06', dict(MaxUnits=n), nparts=14)
     obs = pc.execute(rep, scen, 'default', 'C06')
     pc.validate(rep, 'C06', scen, obs, 'C06-default', kindfn=kind)
-    suite_traces.validate(rep, 'C06:')      # hook traces of the repository's own test programs
+    suite_traces.validate(rep, 'C06:')
+    composition.validate(rep, 'C06', tier)   # random messages of a minimal instrument against Scpi.tla      # hook traces of the repository's own test programs
     nt = [s for s in scen if nontrivial(s)]
     rep.cov['distinct_nontrivial'] = len(nt)
     rep.cov['exhaustive'] = True
